@@ -398,6 +398,10 @@ def pad(
     ):
         # TODO: Think about case when boundary is specified but boundary_width is None or (0,0).
         # TODO: No padding would occur in that situation. Should we warn the user?
+        if isinstance(data, dict):
+            # a vector component that needs no padding is returned as the plain array,
+            # like every padded result
+            (data,) = data.values()
         return data
 
     # TODO: Refactor, if the max value is 0, complain.
@@ -422,6 +426,9 @@ def pad(
             other_component=other_component,
         )
     else:
+        if isinstance(data, dict):
+            # without face connections a vector component is padded like a scalar
+            (data,) = data.values()
         da_padded = _pad_basic(data, grid, padding_width, padding, fill_value)  # type: ignore
 
     return da_padded
